@@ -415,30 +415,72 @@ func runFreshFault(s *scenario) {
 				cc.Close()
 			}
 		case 2:
+			// the client is cut off (EOF right behind its request, or garbage and EOF) - and whatever the transport then
+			// does on its own, every connection it opens must carry a fresh ephemeral key: the dial function hands out a
+			// NEW link for every call and every link's first 32 bytes are collected
+			var links []*wire.Link
+			var firsts [][]byte
+			var lmu sync.Mutex
+			variant := rng.Intn(2)
+			dialFn := func(string, string) (net.Conn, error) {
+				ln := wire.NewLink(true, 0)
+				lmu.Lock()
+				idx := len(links)
+				links = append(links, ln)
+				firsts = append(firsts, nil)
+				lmu.Unlock()
+				ln.Hook = func(c *wire.Conn, what string, data []byte) {
+					if what == "write" && c == ln.A {
+						lmu.Lock()
+						firsts[idx] = append(firsts[idx], data...)
+						lmu.Unlock()
+					}
+				}
+				go func() { // the far end: reads the request, then drops the client
+					buf := make([]byte, 8192)
+					ln.B.Read(buf)
+					if variant == 1 {
+						junk := make([]byte, 64+rng.Intn(200))
+						rand.Read(junk)
+						ln.B.Write(junk)
+					}
+					ln.B.Close()
+				}()
+				return ln.A, nil
+			}
 			cch := make(chan error, 1)
 			go func() {
-				c, err := dialReal(l.A, b.ID.PublicOnly(), i%2 == 1)
+				cf, _ := (&obfs4.Transport{}).ClientFactory("")
+				args, err := cf.ParseArgs(&pt.Args{"cert": {b.ID.PublicOnly().Cert()}, "iat-mode": {"0"}})
+				if err != nil {
+					cch <- err
+					return
+				}
+				c, err := cf.Dial("tcp", "192.0.2.1:443", dialFn, args)
 				if err == nil {
 					c.Close()
 				}
 				cch <- err
 			}()
-			// read the request, answer with garbage and hang up
-			buf := make([]byte, 8192)
-			l.B.Read(buf)
-			junk := make([]byte, 64+rng.Intn(200))
-			rng.Read(junk)
-			l.B.Write(junk)
-			l.B.Close()
 			select {
 			case err := <-cch:
 				if err == nil {
 					allOK = false
 				}
 			case <-time.After(20 * time.Second):
-				w.Emit(vt.Ev{"event": "DriverDead", "why": "client handshake did not return after garbage"})
+				w.Emit(vt.Ev{"event": "DriverDead", "why": "client handshake did not return after it was cut off"})
 				return
 			}
+			lmu.Lock()
+			for k, ln := range links {
+				ln.A.Close()
+				ln.B.Close()
+				if len(firsts[k]) >= 32 {
+					xs[string(firsts[k][:32])] = true
+					nx++
+				}
+			}
+			lmu.Unlock()
 		}
 		l.A.Close()
 		l.B.Close()
